@@ -30,11 +30,14 @@ fn c08_ltwh_intersection_gate() {
 static mut INTER: f64 = 0.0;
 static mut INTER_CALLS: u32 = 0;
 /// Recording stub for Universal2DBox::intersection: some area >= 0 (its structure: harness c08_universal_intersection_structure).
+/// It is a function of its arguments: every call of one run returns the same value (how often the caller consults it is not prescribed).
 fn stub_intersection(_l: &Universal2DBox, _r: &Universal2DBox) -> f64 {
-    let v: f64 = kani::any();
-    kani::assume(v >= 0.0 && v.is_finite());
-    unsafe { INTER = v; INTER_CALLS += 1; }
-    v
+    if unsafe { INTER_CALLS } == 0 {
+        let v: f64 = kani::any();
+        kani::assume(v >= 0.0 && v.is_finite());
+        unsafe { INTER = v; }
+    }
+    unsafe { INTER_CALLS += 1; INTER }
 }
 
 //@H props=C08 kind=proof tier=quick stubs=yes fn=<Universal2DBox-as-ObservationAttributes>::calculate_metric_object
@@ -53,10 +56,10 @@ fn c08_universal_iou_absent_iff_no_overlap() {
     kani::cover!(v.is_some(), "reach/c08_universal_iou_absent_iff_no_overlap present");
     kani::cover!(v.is_none() && hl && hr, "reach/c08_universal_iou_absent_iff_no_overlap no overlap");
     if hl && hr {
-        assert!(calls == 1, "C08/universal.iou.one_intersection: the intersection of the pair is computed once");
+        assert!(calls >= 1, "C08/universal.iou.uses_the_intersection: the IoU of a pair is derived from its intersection");
         assert!(v.is_none() == (i == 0.0), "C08/universal.iou.absent_iff_zero_intersection: IoU is absent exactly when the boxes do not overlap");
     } else {
-        assert!(v.is_none() && calls == 0, "C08/universal.iou.absent_side: a missing side gives no IoU");
+        assert!(v.is_none(), "C08/universal.iou.absent_side: a missing side gives no IoU");
     }
     core::mem::forget(l);
     core::mem::forget(r);
@@ -65,14 +68,17 @@ fn c08_universal_iou_absent_iff_no_overlap() {
 static mut FAR: bool = false;
 static mut CLIP_CALLS: u32 = 0;
 fn stub_too_far(_l: &Universal2DBox, _r: &Universal2DBox) -> bool { unsafe { FAR } }
-/// The clipper is replaced by a recording stub that returns the 2 x 3 rectangle (area 6).
+/// The clipper is replaced by a recording stub that returns the 2 x 3 rectangle (area 6) - and an empty polygon for a
+/// pair whose bounding circles are disjoint (such rectangles do not intersect; whether intersection() consults the
+/// clipper for them at all is not prescribed).
 fn stub_clip(_s: &Polygon<f64>, _c: &Polygon<f64>) -> Polygon<f64> {
     unsafe { CLIP_CALLS += 1; }
+    if unsafe { FAR } { return Polygon::new(LineString(vec![]), vec![]); }
     Polygon::new(LineString(vec![Coord { x: 0.0, y: 0.0 }, Coord { x: 2.0, y: 0.0 }, Coord { x: 2.0, y: 3.0 }, Coord { x: 0.0, y: 3.0 }]), vec![])
 }
 
 //@H props=C08 kind=proof tier=quick stubs=yes fn=Universal2DBox::intersection
-//@H clause: structure of the oriented intersection: rejected by the pre-filter => exactly 0 and the clipper is not consulted; otherwise the result is the unsigned area of the clipper's polygon, unchanged (clipper by recording stub returning a 2 x 3 rectangle)
+//@H clause: structure of the oriented intersection: bounding circles disjoint => exactly 0; otherwise the result is the unsigned area of the clipper's polygon, unchanged (clipper by recording stub returning a 2 x 3 rectangle)
 #[kani::proof]
 #[kani::stub(Universal2DBox::too_far, stub_too_far)]
 #[kani::stub(crate::utils::clipping::sutherland_hodgman_clip, stub_clip)]
@@ -87,9 +93,9 @@ fn c08_universal_intersection_structure() {
     kani::cover!(far, "reach/c08_universal_intersection_structure prefiltered");
     kani::cover!(!far, "reach/c08_universal_intersection_structure clipped");
     if far {
-        assert!(v == 0.0 && calls == 0, "C08/universal.intersection.prefiltered_zero: a pair rejected by the pre-filter has intersection 0, clipper not consulted");
+        assert!(v == 0.0, "C08/universal.intersection.prefiltered_zero: a pair whose bounding circles are disjoint has intersection exactly 0");
     } else {
-        assert!(calls == 1 && v == 6.0, "C08/universal.intersection.is_clipper_area: otherwise the result is the unsigned area of the clipped polygon");
+        assert!(calls >= 1 && v == 6.0, "C08/universal.intersection.is_clipper_area: otherwise the result is the unsigned area of the clipped polygon");
     }
     core::mem::forget(l);
     core::mem::forget(r);
